@@ -174,10 +174,41 @@ def same_enumeration(ctx):
             users.append(("comprehension", n, n.generators[0].iter, n.generators[0]))
         if isinstance(n, ast.For) and any(isinstance(x, ast.Dict) and any(const_str(k) == "path" for k in x.keys) and not any(const_str(k) == "attr" for k in x.keys) for st in n.body for x in ast.walk(st)):
             users.append(("loop", n, n.iter, n))
-    if len(users) < 2:
+    if len(users) == 1 and not any(isinstance(x, ast.Attribute) and x.attr == "align" for b, lab in g.control_deps(C.stmt_node(ctx, fn, users[0][1]))
+                                   if C.test_expr(b) is not None for x in ast.walk(C.test_expr(b))):
+        pass        # one construction serves the plain and the aligned listing (the switch is consulted inside it)
+    elif len(users) < 2:
         ctx.undecided("C01.1", fn, "expected the plain and the aligned construction of info.files, found %d" % len(users))
+    def single_value(e):
+        """A local with one definition stands for that definition."""
+        seen_ = 0
+        while isinstance(e, ast.Name) and seen_ < 4:
+            bl = ctx.res.bindings(fn).get(e.id, [])
+            if len(bl) == 1 and bl[0][0] == "value":
+                e = bl[0][1]
+                seen_ += 1
+            else:
+                break
+        return e
+
+    def sizes_of_listing(e):
+        """e is (a local holding) [getsize(q) for q in A]: the sizes of the listing, position by position."""
+        e = single_value(e)
+        return isinstance(e, ast.ListComp) and len(e.generators) == 1 and not e.generators[0].ifs and isinstance(e.generators[0].target, ast.Name) \
+            and isinstance(e.generators[0].iter, ast.Name) and e.generators[0].iter.id == A and isinstance(e.elt, ast.Call) \
+            and C.is_ext_call(ctx, e.elt, fn, ("os.path.getsize",)) and len(e.elt.args) == 1 and norm(e.elt.args[0]) == e.generators[0].target.id
+
     for kind, node, it, gen in users:
         un = C.stmt_node(ctx, fn, node)
+        var = gen.target.id if isinstance(gen.target, ast.Name) else "?"
+        size_var = None
+        if isinstance(it, ast.Call) and isinstance(it.func, ast.Name) and it.func.id == "zip" and len(it.args) == 2 and isinstance(gen.target, ast.Tuple) \
+                and len(gen.target.elts) == 2 and all(isinstance(t, ast.Name) for t in gen.target.elts):
+            # for p, size in zip(A, sizes): the listing walked together with the sizes of its own elements
+            for i_ in (0, 1):
+                if isinstance(it.args[i_], ast.Name) and it.args[i_].id == A and sizes_of_listing(it.args[1 - i_]):
+                    var, size_var, it = gen.target.elts[i_].id, gen.target.elts[1 - i_].id, it.args[i_]
+                    break
         same = isinstance(it, ast.Name) and it.id == A and rd.reaching(A, un) == dA
         filt = bool(getattr(gen, "ifs", None)) if kind == "comprehension" else False
         if kind == "loop":
@@ -185,19 +216,20 @@ def same_enumeration(ctx):
             bs = C.succ_by_label(head, "iter")[0]
             apps = {C.stmt_node(ctx, fn, x) for st in node.body for x in ast.walk(st) if isinstance(x, ast.Call) and isinstance(x.func, ast.Attribute) and x.func.attr == "append"
                     and x.args and isinstance(x.args[0], ast.Dict) and not any(const_str(k) == "attr" for k in x.args[0].keys)}
-            filt = not (apps and g.must_pass(bs, head, apps)) or any(isinstance(x, (ast.Continue, ast.Break)) for st in node.body for x in ast.walk(st))
+            # every iteration appends the file's entry (a `continue` after the append skips nothing of it)
+            filt = not (apps and g.must_pass(bs, head, apps)) or any(isinstance(x, (ast.Break, ast.Return)) for st in node.body for x in ast.walk(st))
         ctx.decide("C01.1", fn, same and not filt, "info.files (%s) is built from the same list, every element, in order" % kind,
                    "info.files (%s) is built from %s%s: the file list and the hashed stream can differ" % (kind, norm(it), " with a filter / early exit" if filt else ""), it)
         # C01.3 per entry
         d_ = [x for x in ast.walk(node) if isinstance(x, ast.Dict) and any(const_str(k) == "path" for k in x.keys) and not any(const_str(k) == "attr" for k in x.keys)][0]
-        var = gen.target.id if isinstance(gen.target, ast.Name) else "?"
         ent = {const_str(k): v for k, v in zip(d_.keys, d_.values)}
         lv = ent.get("length")
+        paired = isinstance(lv, ast.Name) and size_var is not None and lv.id == size_var
         if isinstance(lv, ast.Name):
             vals = [p for w, p in ctx.res.bindings(fn).get(lv.id, []) if w == "value"]
             lv = vals[0] if len(vals) == 1 else lv
-        ok_len = isinstance(lv, ast.Call) and C.is_ext_call(ctx, lv, fn, ("os.path.getsize",)) and norm(lv.args[0]) == var
-        pv = ent.get("path")
+        ok_len = paired or (isinstance(lv, ast.Call) and C.is_ext_call(ctx, lv, fn, ("os.path.getsize",)) and norm(lv.args[0]) == var)
+        pv = single_value(ent.get("path"))
         ok_path = isinstance(pv, ast.Call) and isinstance(pv.func, ast.Attribute) and pv.func.attr == "split" and pv.args and norm(pv.args[0]) == "os.sep" \
             and isinstance(pv.func.value, ast.Call) and C.is_ext_call(ctx, pv.func.value, fn, ("os.path.relpath",)) and [norm(a) for a in pv.func.value.args] == [var, "self.path"]
         if ok_len and ok_path and set(ent) == {"length", "path"}:
@@ -219,7 +251,11 @@ def same_enumeration(ctx):
             ok = p0 is not None and p0[1] == 0 and listing_call is not None and p0[0] is listing_call
         elif isinstance(v, ast.Call):
             ok = C.is_ext_call(ctx, v, fn, ("os.path.getsize",)) and norm(v.args[0]) == "self.path"
-        guarded = any(C.test_expr(b) is not None and "isfile(self.path)" in norm(C.test_expr(b)) and lab == "true" for b, lab in g.control_deps(sn))
+        def is_file_atom(x):
+            x = single_value(x)
+            return True if isinstance(x, ast.Call) and C.is_ext_call(ctx, x, fn, ("os.path.isfile",)) and x.args and norm(x.args[0]) == "self.path" else None
+        # reached only when the content path is a file: some controlling test goes the other way if it is not
+        guarded = any(C.branch_when(b, lambda x: False if is_file_atom(x) else None) not in (None, lab) for b, lab in g.control_deps(sn) if C.test_expr(b) is not None)
         ctx.decide("C01.3", fn, ok and guarded, "single file: info['length'] is the size of the content path, stored only when it is a file",
                    "single file: info['length'] = %s is not the size of the content path (or not under the isfile test)" % norm(v), s)
     # C01.5 drain
@@ -321,6 +357,13 @@ def v1_hasher(ctx):
                 continue
             ok = isinstance(v, ast.Call) and isinstance(v.func, ast.Attribute) and v.func.attr == "digest" and isinstance(v.func.value, ast.Call) \
                 and C.is_ext_call(ctx, v.func.value, fn, ("hashlib.sha1",))
+            if not ok and isinstance(v, ast.Call) and isinstance(v.func, ast.Attribute) and v.func.attr == "digest" and isinstance(v.func.value, ast.Name):
+                # digest = sha1(...); digest.update(...); return digest.digest()
+                vals = [p_ for w_, p_ in ctx.res.bindings(fn).get(v.func.value.id, []) if w_ == "value"]
+                others = [1 for w_, p_ in ctx.res.bindings(fn).get(v.func.value.id, []) if w_ != "value"]
+                if vals and not others and all(isinstance(x, ast.Call) and C.is_ext_call(ctx, x, fn, ("hashlib.sha1",)) for x in vals):
+                    ctx.holds("C01.5", fn, "returns the digest of a local SHA-1 object (%s = sha1(...))" % v.func.value.id, r)
+                    continue
             ctx.decide("C01.5", fn, ok, "returns sha1(...).digest()", "returns %s, not a SHA-1 digest" % norm(v), r)
     # buffers and slice discipline
     slice_discipline(ctx, "C01.6", [nx, hp], consts)
@@ -344,7 +387,13 @@ def v1_hasher(ctx):
     for c in calls:
         cn = C.stmt_node(ctx, nx, c)
         conds = [(norm(C.test_expr(b)), lab) for b, lab in g.direct_control_deps(cn) if C.test_expr(b) is not None]
-        ok = any(t == "%s < %s" % (SZ, PL) and lab == "true" for t, lab in conds)
+
+        def full_read(x):
+            if isinstance(x, ast.Compare) and len(x.ops) == 1 and norm(x.left) == SZ and norm(x.comparators[0]) == PL:
+                return {ast.Lt: False, ast.NotEq: False, ast.Eq: True, ast.GtE: True, ast.LtE: True, ast.Gt: False}.get(type(x.ops[0]))
+            return None
+        # the hand-over is reached only after a short read: some controlling test goes the other way for a full read
+        ok = any(C.branch_when(b, full_read) not in (None, lab) for b, lab in g.control_deps(cn) if C.test_expr(b) is not None)
         ctx.decide("C01.6", nx, ok, "a read shorter than the piece length is continued across files", "the cross-file continuation is entered under %s" % conds, c)
     # _handle_partial: stitching loop
     wl = [n for n in own_nodes(hp.node) if isinstance(n, ast.While)]
@@ -560,20 +609,33 @@ def _buffer_uses(ctx, rid, fn, g, buf, sz, rn, skip, cap, fresh, depth):
                     else:
                         ctx.undecided(rid, fn, "buffer %r is handed to %s in a way that is not understood" % (buf, t.name), par)
                 continue
-        # whole-buffer use: the path must imply sz == capacity
-        full = False
-        aligned = False
-        for b, lab in g.control_deps(un):
-            t = C.test_expr(b)
-            if t is None:
-                continue
-            if isinstance(t, ast.Attribute) and t.attr == "align" and lab == "true":
-                aligned = True
-            if not isinstance(t, ast.Compare) or norm(t.left) != sz:
-                continue
-            r = norm(t.comparators[0])
-            if cap is not None and r == cap and ((isinstance(t.ops[0], ast.Lt) and lab == "false") or (isinstance(t.ops[0], ast.Eq) and lab == "true") or (isinstance(t.ops[0], ast.GtE) and lab == "true")):
-                full = True
+        # whole-buffer use: the path must imply sz == capacity, or (fresh buffer) the align switch
+        deps = [(b, lab) for b, lab in g.control_deps(un) if C.test_expr(b) is not None]
+
+        def reachable_when(short, align):
+            """Can the use be reached when the read was short (resp. full) and the align switch has the given value?
+            False only when some controlling test is decided the other way."""
+            def atom(x):
+                if isinstance(x, ast.Attribute) and x.attr == "align":
+                    return align
+                if isinstance(x, ast.Compare) and len(x.ops) == 1 and cap is not None:
+                    l, r, op = norm(x.left), norm(x.comparators[0]), type(x.ops[0])
+                    if l == cap and r == sz:
+                        l, r, op = r, l, {ast.Lt: ast.Gt, ast.Gt: ast.Lt, ast.LtE: ast.GtE, ast.GtE: ast.LtE}.get(op, op)
+                    if l == sz and r == cap:
+                        return {ast.Lt: short, ast.NotEq: short, ast.Eq: not short, ast.GtE: not short, ast.LtE: True, ast.Gt: False}.get(op)
+                    if l == sz and r == "0" and not short:
+                        return {ast.Eq: False, ast.NotEq: True, ast.Gt: True, ast.LtE: False}.get(op)
+                return None
+            if rn is not None:
+                return un in C.reach_under(g, rn, atom, stop=[rn])
+            for b, lab in deps:
+                forced = C.branch_when(b, atom)
+                if forced is not None and forced != lab:
+                    return False
+            return True
+        full = cap is not None and not reachable_when(True, True) and not reachable_when(True, False)
+        aligned = cap is not None and not full and not reachable_when(True, False)
         if full:
             ctx.holds(rid, fn, "whole buffer %r is used only where %s == %s is implied" % (buf, sz, cap), par)
         elif cap is None:
